@@ -8,11 +8,12 @@ conf=$(sh /verif/tools/confirm_seed.sh "$out" 2>&1); crc=$?
 echo "$conf" | tail -6
 res=$(sh /verif/tools/${TRY:-try_seed_iso.sh} "$out/patch.diff" "$@" 2>&1)
 echo "$res"
-python3 - "$pid" "$n" "$crc" "$out" "$@" <<PY
+tf=$(mktemp /tmp/ps-XXXXXX); printf '%s' "$conf" > "$tf.conf"; printf '%s' "$res" > "$tf.res"
+python3 - "$pid" "$n" "$crc" "$out" "$tf" "$@" <<'PY'
 import json,sys,re
-pid,n,crc,out=sys.argv[1:5]; checks=sys.argv[5:]
-conf='''$conf'''
-res='''$res'''
+pid,n,crc,out,tf=sys.argv[1:6]; checks=sys.argv[6:]
+conf=open(tf+'.conf').read()
+res=open(tf+'.res').read()
 caught={}
 for m in re.finditer(r'== (C\d+) exit=(\d+): (\d+) VIOLATION', res):
     caught[m.group(1)]={'exit':int(m.group(2)),'violation_lines':int(m.group(3))}
@@ -24,3 +25,4 @@ json.dump({'property':pid,'seed':int(n),'confirmed_independently':crc=='0','conf
            'ran':'tools/confirm_seed.sh (scratch worktree: demo on unchanged tree, ctest + demo on patched tree) then tools/try_seed.sh (git -C /repo apply; ./check ...; git -C /repo checkout -- .)'},
           open(out+'/meta.json','w'),indent=1)
 PY
+rm -f "$tf" "$tf.conf" "$tf.res"
